@@ -18,6 +18,31 @@ CLAIMS = {
              "mailbox.push_back, order-preserving operations only, spawner always notified, await registration before a not-finished answer. "
              "They hold for every path of the code, which no test schedule can enumerate; liveness under real interleavings is not decided.",
         design="§3 C04", technique="static analysis: MIR must-pass-through / pairing / who-may-call rules (rustc_private driver + rule evaluator)"),
+    "C02": dict(
+        text="Decides one structural necessary condition of C02: every forward-jump placeholder the code generator plants is pointed at its join "
+             "on every non-error path (value flow of the returned address into a patch call through Options and drained Vecs; dead always-None "
+             "parameters pruned after checking every call site), plus the failure-path nil fill of compile_match. An unpatched placeholder is "
+             "Jump(0), in range but wrong, so only a behaviour check or this pairing rule sees it. Values, evaluation order, stack offsets and "
+             "Reset discipline are NOT decided.",
+        design="§3 C02", technique="static analysis: MIR forward value-flow closure + path exploration with discriminant threading (placeholder/patch pairing)"),
+    "C05": dict(
+        text="Decides structural clauses of select: who may remove from a mailbox and under which verdict (removed index tied to the examined/held "
+             "message), the filter result reaching only the nil test, the awaited process's own error being propagated, latest-answer-replaces in "
+             "the await bookkeeping, forward source scan with first-ready-wins, sibling agreement of the three timeout-expiry tests and a single "
+             "start of the waiting period. Priority under real arrival histories and clocks is not decided.",
+        design="§3 C05", technique="static analysis: MIR guarded reachability, value-source slices, no-flow (taint) and sibling comparison"),
+    "C07": dict(
+        text="Decides structural clauses: Jump/JumpIf are built only by the audited InstructionBuilder formula from in-range targets (provenance "
+             "slice, followed through callers); the index-carrying instruction/type fields, derived from the executor and the ADTs, are followed by "
+             "every mark/sweep/merge walker through the right table; hot/cold dispatch tables agree; remap tables are order-preserving, fresh per "
+             "merge and fed only by register_*/import_*; the match-failure nil fill is unconditional. The main claim (stack discipline and definite "
+             "locals of emitted bytecode on all paths) is NOT claimed.",
+        design="§3 C07", technique="static analysis: HIR pattern matrices / sibling agreement, MIR provenance slices, who-may-construct census"),
+    "C10": dict(
+        text="Decides: remap completeness of every id-carrying field in tree-shake and merge, order-preserving fresh remap tables, derived and "
+             "attribute-symmetric serde for every ADT reachable from Bytecode, the capture-injection prologue shape, structural re-emission of "
+             "cached module values. Equality of results across the four packaging routes is not decided.",
+        design="§3 C10", technique="static analysis: HIR sibling agreement, derive/attribute census, MIR value-source slices"),
     "C06": dict(
         text="Root-write audit over the resolved MIR of the whole workspace: every mutation of a GC root (derived from the Process/SelectState ADTs) "
              "must be paired with retain/release of the same value group on every non-error path, be a root-to-root move, insert a heap-free value, "
